@@ -105,7 +105,18 @@ def check_tseytin(case):
     t = refsem.tables(nl)
     typ = {g[0]: g[1] for g in nl['gates']}
     sel_labels = [nl['outputs'][i] for i in sel_idx]
-    cone = [l for l in refsem.reachable(nl, sel_labels) if typ[l] != 'INPUT']
+    # the gates whose values matter: reached from the selected outputs without going through a constant (a constant ignores
+    # its operands; whether their cones are encoded as well is the library's business)
+    ops_of = {g[0]: g[2] for g in nl['gates']}
+    seen, stack = set(), list(sel_labels)
+    while stack:
+        x = stack.pop()
+        if x in seen:
+            continue
+        seen.add(x)
+        if typ[x] not in refsem.CONST:
+            stack.extend(ops_of[x])
+    cone = [l for l in seen if typ[l] != 'INPUT']
     gate_vars = sorted({abs(l) for cl in clauses for l in cl if abs(l) > n})
     if any(l == 0 for cl in clauses for l in cl):
         raise Violation('bad_literal', 'literal 0 in CNF')
